@@ -223,3 +223,21 @@ for _p, _s in PROPS.items():
     if "render" in _have:
         _s["translate"] = ",".join(_have + [x for x in ("element", "ident", "names", "hints") if x not in _have])
         _s["prop_files"] = _s.get("prop_files", [_p]) + [f for f in ("C16rs", "C04rs", "C14rs", "C14hints") if f not in _s.get("prop_files", [_p])]
+
+# The same closure for the other callees read as model functions: the translated event loop calls
+# `count_children` / `tag_optional_children` (own translation: part `parser`, C03rs.v) and the element
+# operations (part `element`, C16rs.v); `merge_attr` of the element operations calls `merge_necessity`
+# (part `necessity`, C15rs.v).  Round 12: C05-m21 edited `tag_optional_children` and was reported by the
+# check of C05 through its replays only, not as a broken obligation.
+for _p, _s in PROPS.items():
+    _have = [x for x in (_s.get("translate") or "").split(",") if x]
+    _files = _s.get("prop_files", [_p])
+    if "loop" in _have:
+        _have += [x for x in ("parser", "element") if x not in _have]
+        _files = _files + [f for f in ("C03rs", "C16rs") if f not in _files]
+    if "element" in _have:
+        _have += [x for x in ("necessity",) if x not in _have]
+        _files = _files + [f for f in ("C15rs",) if f not in _files]
+    if _have:
+        _s["translate"] = ",".join(_have)
+        _s["prop_files"] = _files
